@@ -190,6 +190,15 @@ Example C10_example :
   whiteout_path (v0, []) [] = [whiteout_name; wo_suffix].
 Proof. vm_compute. split; reflexivity. Qed.
 
+(** a removed directory does not come back through a FAILING call below it: append_file below a directory the
+    overlay does not show (marker present, nothing in the write layer) fails before it copies anything up - both
+    layers and the handle table are unchanged *)
+Theorem C10_failed_append_below_removed_dir : forall lg ft (s0 s1 : mstate) hs (d : list (list N)) (n : list N),
+  d <> [] -> s0 !! (d ++ [n]) = None -> s0 !! d = None -> is_Some (s0 !! whiteout_path (v0, []) d) ->
+  exists e, run bhandler (ovl_impl (v0, []) [(v1, [])] (CAppendFile (d ++ [n]))) (mstore2 s0 s1 hs lg ft) =
+            (mstore2 s0 s1 hs lg ft, Err e).
+Proof. exact append_below_removed_dir. Qed.
+
 Print Assumptions C10_marker_hides.
 Print Assumptions C10_marker_injective.
 Print Assumptions C10_bookkeeping_hidden.
@@ -207,3 +216,4 @@ Print Assumptions C10_unnamed_paths_keep_their_view.
 Print Assumptions C10_deleted_stays_deleted.
 Print Assumptions C10_create_dir_is_a_step.
 Print Assumptions C10_remove_file_is_a_step.
+Print Assumptions C10_failed_append_below_removed_dir.
